@@ -163,3 +163,5 @@ def run(ctx, prog):
     streq(ctx, prog)
     linkcopy(ctx, prog)
     strkind(ctx, prog)
+    from rules import c04
+    c04.keyval(ctx, prog)
